@@ -115,6 +115,24 @@ func runR044(c *core.Ctx) {
 							if f := core.Callee(inf, call); f != nil && f.Origin() == recvFn {
 								return after // recursion into the sub-resource
 							}
+							// a rejection built by a local closure or a small function of the module (`invalidBody(err)`):
+							// every return of that function must itself be a 4xx error response
+							if _, fbody, finf := localFuncValue(c, inf, body, call.Fun); fbody != nil {
+								all, any := true, false
+								for _, fr := range core.ReturnsIn(fbody) {
+									any = true
+									if len(fr.Results) != 1 {
+										all = false
+										continue
+									}
+									if s, ok := statusOfErrorResponsef(finf, fr.Results[0], errResp); !ok || s < 400 || s >= 500 {
+										all = false
+									}
+								}
+								if all && any {
+									return after
+								}
+							}
 						}
 						bad[r] = "return of " + core.ExprString(r.Results[0]) + " before resource code is not a newErrorResponsef(…, 4xx, …)"
 						return after
@@ -269,4 +287,35 @@ func ordinalIn(root ast.Node, target ast.Node) int {
 		return true
 	})
 	return res
+}
+
+// localFuncValue resolves the callee expression of a call to the code that runs: a function literal, a named function
+// of the module, or a local variable whose only definition inside root is one of these.
+func localFuncValue(c *core.Ctx, inf *types.Info, root ast.Node, fun ast.Expr) (*ast.FuncType, *ast.BlockStmt, *types.Info) {
+	if t, b, i := core.FuncValueOf(c.M, inf, fun); b != nil {
+		return t, b, i
+	}
+	v, ok := core.ObjOf(inf, fun).(*types.Var)
+	if !ok || v.IsField() || root == nil {
+		return nil, nil, nil
+	}
+	var defs []ast.Expr
+	ast.Inspect(root, func(y ast.Node) bool {
+		if as, ok := y.(*ast.AssignStmt); ok {
+			for i, l := range as.Lhs {
+				if core.ObjOf(inf, l) == v {
+					if len(as.Lhs) == len(as.Rhs) {
+						defs = append(defs, as.Rhs[i])
+					} else {
+						defs = append(defs, nil)
+					}
+				}
+			}
+		}
+		return true
+	})
+	if len(defs) != 1 || defs[0] == nil {
+		return nil, nil, nil
+	}
+	return core.FuncValueOf(c.M, inf, defs[0])
 }
